@@ -109,11 +109,28 @@ def fd_returning(P):
             for nid, n in f.nodes.items():
                 if n["k"] == "return" and n.get("sub") is not None:
                     r = f.sn(n["sub"])
-                    if _is_src(P, f, n["sub"], out) or (r["k"] == "ref" and r.get("did") in srcvars):
+                    # `x != NULL ? x->fd : -1`: a pooled descriptor or a failure
+                    pooled = False
+                    if r["k"] == "cond":
+                        arms = [f.sn(r["tv"]), f.sn(r["fv"])]
+                        consts = [C.const_of(f, r["tv"]), C.const_of(f, r["fv"])]
+                        if any(c is not None and c < 0 for c in consts) and any(a["k"] == "member" and (a["field"] or "").endswith("fd") for a in arms):
+                            pooled = any(True for c in f.calls() if _reaches_source(P, f, c, out, 2))
+                    if _is_src(P, f, n["sub"], out) or (r["k"] == "ref" and r.get("did") in srcvars) or pooled:
                         out.add(f)
                         changed = True
                         break
     return out
+
+
+def _reaches_source(P, f, call, fdret, depth):
+    n = f.nodes[call]
+    if n.get("callee") in FD_SOURCES:
+        return True
+    d = P.resolve_direct(f, n["callee"]) if n.get("callee") else None
+    if d is None or depth <= 0:
+        return False
+    return d in fdret or any(_reaches_source(P, d, c, fdret, depth - 1) for c in d.calls())
 
 
 def _is_src(P, f, nid, fdret):
@@ -410,8 +427,160 @@ def check_owner_false(P, ctx, tables):
         raise Broken("C08.R6 self-check: epoll_ctl/unlink not reachable from the close ops (%s)" % sorted(found))
 
 
+FALLIBLE_EXT = {"socket", "accept", "accept4", "epoll_create1", "epoll_create", "eventfd", "timerfd_create", "bind", "listen", "connect",
+                "open", "fopen", "openat", "epoll_ctl", "pthread_create", "opendir"}
+
+
+def _aborts_block(fn, b):
+    from .C01 import aborts
+    return aborts(fn, b)
+
+
+def assert_preconditions(P):
+    """function -> {param index: text} for parameters the function asserts to be valid (non-negative / non-NULL)"""
+    out = {}
+    for f in P.functions:
+        pre = {}
+        for b, cond in C.cond_blocks(f):
+            es = C.edges(f, b)
+            ab = [lab for s_, lab in es if _aborts_block(f, s_)]
+            if len(ab) != 1:
+                continue
+            l, op, r = C.cond_atom(f, cond, True)
+            ln = f.sn(l)
+            if ln["k"] == "ref" and ln["dk"] == "param":
+                i = [k for k, p in enumerate(f.params) if p["name"] == ln["name"]]
+                # only assertions at the top of the function (not after a reassignment)
+                if i and not any(op2 == "=" and f.sn(lhs)["k"] == "ref" and f.sn(lhs)["name"] == ln["name"] for bb, ii, e, lhs, rhs, op2 in f.stores()):
+                    pre[i[0]] = f.show(cond)
+        if pre:
+            out[f] = pre
+    return out
+
+
 def check_resource_asserts(P, ctx):
-    pass
+    r7 = ctx.rule("C08.R7", "a failing resource-creating call is reported through the documented error return, never asserted away")
+    fdret = fd_returning(P)
+    pre = assert_preconditions(P)
+    n_sites = 0
+    for f in P.functions:
+        if not f.file.startswith("libxcm/"):
+            continue
+        # (b) direct: the result of a fallible system call decides an aborting branch
+        holders = {}
+        for c in f.calls():
+            n = f.nodes[c]
+            name = n.get("callee") or ""
+            if name not in FALLIBLE_EXT:
+                continue
+            if name == "epoll_ctl":
+                continue        # handled below per operation
+            n_sites += 1
+            h = _holder(f, c)
+            if h:
+                holders[h] = (c, name)
+        for c in f.calls("epoll_ctl"):
+            n = f.nodes[c]
+            opv = C.const_of(f, n["args"][1])
+            if opv == 1:       # EPOLL_CTL_ADD allocates kernel memory: ENOMEM/ENOSPC are resource exhaustion
+                n_sites += 1
+                h = _holder(f, c)
+                if h:
+                    holders[h] = (c, "epoll_ctl(EPOLL_CTL_ADD)")
+        for b, cond in C.cond_blocks(f):
+            es = C.edges(f, b)
+            ab = [lab for s_, lab in es if _aborts_block(f, s_)]
+            if len(ab) != 1:
+                continue
+            l, op, r = C.cond_atom(f, cond, True)
+            ln = f.sn(l)
+            key = None
+            if ln["k"] == "ref":
+                key = ("v", ln.get("did"))
+            elif ln["k"] == "call":
+                key = ("c", ln["id"])
+            if key in holders:
+                c, name = holders[key]
+                r7.instance("%s:%s" % (f.qname, name))
+                r7.violation("%s:%s:asserted" % (f.name, name), "the result of %s is asserted (`%s`): when the call fails for lack of resources "
+                             "(EMFILE/ENFILE/ENOMEM/ENOSPC) the process is aborted instead of the error being returned" % (name, f.show(cond)), loc=f.loc(c))
+        # (a) a possibly failed descriptor handed to a function that asserts it valid
+        srcs = [c for c in f.calls() if _is_src(P, f, c, fdret)]
+        if not srcs:
+            continue
+
+        bad = []
+
+        class Unchecked(C.Rule):
+            def initial(self, fn):
+                return frozenset()
+
+            def _key(self, fn, nid):
+                n = fn.sn(nid)
+                if n["k"] == "ref" and n["dk"] in ("local",):
+                    return "v:" + n["name"]
+                if n["k"] == "member" and n["field"]:
+                    return "f:" + fn.apath_str(nid)
+                if n["k"] == "bin" and n["op"] == "=":
+                    return self._key(fn, n["l"])
+                return None
+
+            def elem(self, fn, st, nid, blk, idx):
+                n = fn.nodes[nid]
+                if n["k"] == "decl":
+                    for v in n["vars"]:
+                        if v.get("init") is not None and _is_src(P, fn, v["init"], fdret):
+                            st = st | {"v:" + v["name"]}
+                    return st
+                if n["k"] == "bin" and n["op"] == "=" and _is_src(P, fn, n["r"], fdret):
+                    k = self._key(fn, n["l"])
+                    return st | {k} if k else st
+                if n["k"] == "call":
+                    for d in P.callees(fn, nid)[0]:
+                        for ai, txt in pre.get(d, {}).items():
+                            if ai < len(n["args"]):
+                                k = self._key(fn, n["args"][ai])
+                                if k and k in st:
+                                    bad.append((k, d, txt, nid))
+                return None
+
+            def branch(self, fn, st, blk, cond, label):
+                if label not in ("T", "F"):
+                    return None
+                l, op, r = C.cond_atom(fn, cond, label == "T")
+                k = self._key(fn, l)
+                if k and k in st:
+                    return st - {k}
+                return None
+        C.explore(f, Unchecked(), max_states=50000)
+        seen = set()
+        for k, d, txt, nid in bad:
+            if (k, d.name) in seen:
+                continue
+            seen.add((k, d.name))
+            r7.instance("%s -> %s" % (f.qname, d.name))
+            r7.violation("%s:%s->%s:unchecked" % (f.name, k.split(":", 1)[1], d.name),
+                         "%s may hold a failed descriptor (-1: the creating call ran out of descriptors) and is handed unchecked to %s(), which asserts `%s`: "
+                         "descriptor exhaustion aborts the process" % (k.split(":", 1)[1], d.name, txt), loc=f.loc(nid))
+    r7.ok("%d resource-creating call sites examined" % n_sites, "enumeration")
+    if n_sites < 12:
+        raise Broken("C08.R7: only %d resource-creating call sites" % n_sites)
+
+
+def _holder(f, call):
+    par = f.parents().get(call)
+    x = call
+    while par is not None and f.nodes[par]["k"] in ("paren", "cast"):
+        x = par
+        par = f.parents().get(par)
+    pn = f.nodes.get(par, {})
+    if pn.get("k") == "bin" and pn["op"] == "=" and f.sn(pn["l"])["k"] == "ref":
+        return ("v", f.sn(pn["l"]).get("did"))
+    if pn.get("k") == "decl":
+        for v in pn["vars"]:
+            if v.get("init") is not None and f.strip(v["init"]) == f.strip(x):
+                return ("v", v["did"])
+    return ("c", call)
 
 
 def check_fields_released(P, ctx):
